@@ -159,17 +159,72 @@ func c09(r *core.Run) {
 					}
 				}
 			}
-			// the lookup that decides "no open bid" must use the very key the record is written under
-			var getter *ssa.Call
-			allInstrs(unit, func(in ssa.Instruction) {
-				if c, ok := in.(*ssa.Call); ok {
-					for _, cal := range p.Callees(c) {
-						if gi := p.StoreGetter(cal); gi != nil && gi.Module+"/"+gi.Prefix == rnsBids {
-							getter = c
+			// helpers of the unit that either find no open bid or refund it before returning nil
+			isRefund := func(bo *core.BankOp) bool {
+				return bo.Method == "SendCoinsFromModuleToAccount" && onlyStoreField(rnsBids, ".Price")(p.ProvAt(bo.Args[2], "", bo.Instr)) &&
+					p.OnlyMsgField(p.ProvAt(bo.Args[1], "", bo.Instr), h, "Creator")
+			}
+			refundOrAbsent := func(hf *ssa.Function) bool {
+				if hf.Blocks == nil || errResultIdx(hf) < 0 {
+					return false
+				}
+				rm := p.PassEdges(hf, foundGuard(p, rnsBids, false))
+				nRef := 0
+				for _, bo := range p.BankOps(hf) {
+					if isRefund(bo) {
+						nRef++
+						// a tail `return send(...)` returns nil only if the refund succeeded: treat the block as passed
+						for e := range edgesInto(hf, bo.Instr) {
+							rm[e] = true
 						}
 					}
 				}
-			})
+				if nRef == 0 {
+					return false
+				}
+				for _, ri := range p.Returns(hf) {
+					if ri.Class == core.RetFail {
+						continue
+					}
+					if core.PathExists(hf, rm, hf.Blocks[0].Instrs[0], ri.Ret) {
+						return false
+					}
+				}
+				return true
+			}
+			helperEdges := p.PassEdges(unit, errNilGuard(p, func(c *ssa.Call) bool {
+				cs := p.Callees(c)
+				return len(cs) == 1 && refundOrAbsent(cs[0])
+			}))
+			for e := range helperEdges {
+				removed[e] = true
+			}
+			// the lookup that decides "no open bid" must use the very key the record is written under
+			var getter *ssa.Call
+			var getterIn *ssa.Function
+			var via *ssa.Call
+			for _, fn2 := range p.Summary(unit).Funcs {
+				allInstrs(fn2, func(in ssa.Instruction) {
+					if c, ok := in.(*ssa.Call); ok {
+						for _, cal := range p.Callees(c) {
+							if gi := p.StoreGetter(cal); gi != nil && gi.Module+"/"+gi.Prefix == rnsBids && fn2 != cal {
+								getter, getterIn = c, fn2
+							}
+						}
+					}
+				})
+			}
+			if getterIn != nil && getterIn != unit {
+				allInstrs(unit, func(in ssa.Instruction) {
+					if c, ok := in.(*ssa.Call); ok {
+						for _, cal := range p.Callees(c) {
+							if cal == getterIn {
+								via = c
+							}
+						}
+					}
+				})
+			}
 			if getter == nil {
 				r.Violation("C09/R3", h.Key()+":open-bid-lookup", p.InstrPos(setCall), "the bid handler never looks up an existing bid before writing")
 			} else if al := recordAlloc(rec); al != nil {
@@ -179,10 +234,19 @@ func c09(r *core.Run) {
 				}
 				ga := dataArgs(getter)
 				tb := core.NewTermBuilder(p)
-				okKey := idx != nil && len(ga) == 1 && tb.Term(ga[0]) == tb.Term(idx)
+				gtb := core.NewTermBuilder(p)
+				if via != nil {
+					// name the helper's parameters by the terms of the arguments at its call in the unit
+					for i, prm := range getterIn.Params {
+						if i < len(via.Call.Args) {
+							gtb.Names[prm] = tb.Term(via.Call.Args[i])
+						}
+					}
+				}
+				okKey := idx != nil && len(ga) == 1 && gtb.Term(ga[0]) == tb.Term(idx)
 				detail := ""
 				if idx != nil && len(ga) == 1 {
-					detail = "lookup " + tb.Term(ga[0]) + " vs written " + tb.Term(idx)
+					detail = "lookup " + gtb.Term(ga[0]) + " vs written " + tb.Term(idx)
 				}
 				r.Check(okKey, "C09/R3", h.Key()+":lookup-key=written-key", p.InstrPos(getter), "open-bid lookup key and written key are the same term", "the open bid is looked up under a different key than the new bid is written under, so an existing bid can be overwritten without being found and refunded: "+detail)
 			}
